@@ -171,6 +171,17 @@ def r2_reads(ctx):
     # triples
     inl = Inliner(prog, only=lambda k: k.startswith(PS))
     triples = []
+
+    def strip(t):
+        while t[0] in ("cast", "&", "*"):
+            t = t[2] if t[0] == "cast" else t[1]
+        return t
+
+    def root_param(t):
+        t = strip(t)
+        while t[0] in ("f", "idx", "*", "&", "cast"):
+            t = strip(t[1]) if t[0] != "cast" else strip(t[2])
+        return t[1] if t[0] == "param" else None
     for key in (BB + "_zobrist_hash", BB + "_zobrist_pawn_hash"):
         f = ctx.fn(rid, key)
         cfg = Cfg(f)
@@ -179,34 +190,50 @@ def r2_reads(ctx):
             t = f["blocks"][b]["term"]
             if t["k"] == "call" and t["callee"].get("key") == BB + "zobrist_hash_for_occupancy":
                 occ, piece, colour = [ex.operand(a) for a in t["args"]]
-                acc = occ[1] if occ[0] == "call" else None
-                player = None
-                if occ[0] == "call" and len(occ[2]) == 1:
-                    p = occ[2][0]
-                    player = p[1] if p[0] == "param" else None
-                k_occ = None
-                if acc:
-                    sm = inl.summary(acc)
+                # where the occupancy comes from: an accessor of PlayerState (resolved to its index) or occupancy[i] itself
+                src = occ
+                if occ[0] == "call" and occ[1].startswith(PS) and len(occ[2]) == 1:
+                    sm = inl(occ[1], list(occ[2]))
                     if sm is not None:
-                        for x in leaves(sm):
-                            if x[0] == "idx" and x[1][0] == "f" and x[1][2] == "occupancy":
-                                try:
-                                    k_occ = fold(x[2])
-                                except Unfoldable:
-                                    pass
-                try:
-                    pv, cv = fold(piece), fold(colour)
-                except Unfoldable:
-                    pv = cv = None
-                triples.append((player, k_occ, pv, cv, t["line"], f))
-    for player, k_occ, pv, cv, line, f in triples:
-        ok = k_occ is not None and k_occ == pv and player in (1, 2) and cv == player - 1
-        ctx.ob(rid, "triple|player%s|occ%s" % (player, k_occ), ok,
-               "" if ok else "pieces read from occupancy[%s] of player %s are hashed as piece %s of colour %s" % (k_occ, {1: "white", 2: "black"}.get(player), pv, cv),
-               ctx.where(f, line), sample={"player": {1: "white", 2: "black"}.get(player), "occupancy_index": k_occ, "piece_const": pv, "colour_const": cv})
-    combos = {(p, k) for p, k, _, _, _, _ in triples}
-    ok = combos == {(p, k) for p in (1, 2) for k in range(1, 7)} and len(triples) == 12
-    ctx.ob(rid, "twelve-combinations", ok, "" if ok else "hashed (player, piece) combinations: %s" % sorted(combos, key=str), "")
+                        src = sm
+                idx_tree, player = None, None
+                for x in [strip(src)] + list(leaves(src)):
+                    if x[0] == "idx" and strip(x[1])[0] == "f" and strip(x[1])[2] == "occupancy":
+                        idx_tree = strip(x[2])
+                        player = root_param(x[1])
+                        break
+                def val(tr):
+                    try:
+                        return fold(tr)
+                    except Unfoldable:
+                        return None
+                triples.append((player, idx_tree, val(idx_tree) if idx_tree is not None else None, strip(piece), val(piece), val(colour), t["line"], f))
+    symbolic = False
+    for player, idx_tree, k_occ, piece_tree, pv, cv, line, f in triples:
+        pname = {1: "white", 2: "black"}.get(player)
+        if idx_tree is None or player not in (1, 2) or cv is None:
+            symbolic = True
+            ctx.lost(rid, "a zobrist_hash_for_occupancy call whose occupancy / colour is not read from a player parameter with a constant colour")
+            continue
+        if k_occ is not None and pv is not None:
+            ok = k_occ == pv and cv == player - 1
+        elif idx_tree == piece_tree:
+            # occupancy[i] hashed as piece i for a running i (a loop over the piece codes)
+            ok = cv == player - 1
+            symbolic = True
+        else:
+            symbolic = True
+            ctx.lost(rid, "a zobrist_hash_for_occupancy call whose occupancy index (%s) and piece (%s) are different non-constant expressions" % (show(idx_tree), show(piece_tree)))
+            continue
+        ctx.ob(rid, "triple|player%s|occ%s" % (player, k_occ if k_occ is not None else "i"), ok,
+               "" if ok else "pieces read from occupancy[%s] of player %s are hashed as piece %s of colour %s" % (k_occ if k_occ is not None else show(idx_tree), pname, pv if pv is not None else show(piece_tree), cv),
+               ctx.where(f, line), sample={"player": pname, "occupancy_index": k_occ, "piece_const": pv, "colour_const": cv})
+    if not symbolic:
+        combos = {(p, k) for p, _, k, _, _, _, _, _ in triples}
+        ok = combos == {(p, k) for p in (1, 2) for k in range(1, 7)} and len(triples) == 12
+        ctx.ob(rid, "twelve-combinations", ok, "" if ok else "hashed (player, piece) combinations: %s" % sorted(combos, key=str), "")
+    else:
+        ctx.lost(rid, "the twelve (player, piece) combinations: some are hashed in a loop / through an expression, their count is not read here")
     # en passant by file
     g = ctx.fn(rid, Z + "en_passant_square_hash")
     gp = returning_paths(g)
@@ -356,6 +383,7 @@ def r4_threading(ctx):
             for ai in hash_args:
                 a = ex.operand(t["args"][ai])
                 ok = False
+                opaque = a != ("param", ai + 1)      # an unchanged hash is wrong; anything else unread so far is unknown
                 why = "argument %d is %s" % (ai, show(a))
                 if a[0] == "bin" and a[1] == "BitXor":
                     parts = [a[2], a[3]]
@@ -369,9 +397,16 @@ def r4_threading(ctx):
                             comp = d[2] if d[0] == "f" else None
                             want = "0" if (name == "search_negamax" and ai == 7) else "1"
                             ok = comp == want
+                            opaque = False
                             why = "component .%s of zobrist_xor used for hash parameter %d (expected .%s)" % (comp, ai + 1, want)
                         else:
+                            # zobrist_xor of another move: wrong; a delta computed some other way (a helper, a local
+                            # assigned on several paths): not read by this rule
+                            opaque = not calls
                             why = "delta %s is not zobrist_xor of the move made (%s)" % (show(d), show(mv) if mv else None)
+                if not ok and opaque:
+                    ctx.lost(rid, "%s: hash argument %d is computed in a way this rule does not read (%s)" % (name, ai + 1, show(a)[:80]))
+                    continue
                 ctx.ob(rid, "%s|hash-arg-%d" % (name, ai + 1), ok, "" if ok else "%s: %s" % (name, why), ctx.where(f, t["line"]), sample={"function": name, "argument": show(a)})
 
 
